@@ -1,5 +1,5 @@
 CONSTANTS
-  Programs <- SUsesQuickSet
+  Programs <- Space
   CanonOrder <- MCOrder2
 INIT Init
 NEXT Next
